@@ -39,6 +39,6 @@ if [ "$BUILD" = ok ] && [ "$EXISTING" = pass ] && [ "$DEMO_WITH" = fail ] && [ "
   tail -5 $LOG.demo_with > /verif/seeded/$SID/demo_with_patch.txt
   echo "CONFIRMED $SID (packages: $PKGS)"
 else
-  echo "NOT-CONFIRMED $SID"; tail -20 $LOG.existing $LOG.demo_with $LOG.demo_without | cut -c1-200
+  echo "NOT-CONFIRMED $SID"; tail -n 20 $LOG.existing $LOG.demo_with $LOG.demo_without | cut -c1-200
 fi
 rm -f $LOG $LOG.*
